@@ -10,7 +10,7 @@ cp "$M/demo.py" /tmp/_demo_$ID.py
 PYTHONPATH=$WT /venv/bin/python /tmp/_demo_$ID.py >/tmp/_demo_$ID.base 2>&1; base=$?
 git apply "$M/patch.diff"
 if git diff --name-only | grep -q '\.c$'; then /venv/bin/python setup.py build_ext --inplace >/dev/null 2>&1; rm -rf build; fi
-PYTHONPATH=$WT /venv/bin/python -m pytest -q -p no:cacheprovider -n 8 2>&1 | tail -1 > /tmp/_tests_$ID.txt
+PYTHONPATH=$WT /venv/bin/python -m pytest -q -p no:cacheprovider -n 5 2>&1 | tail -1 > /tmp/_tests_$ID.txt
 PYTHONPATH=$WT /venv/bin/python /tmp/_demo_$ID.py >/tmp/_demo_$ID.mut 2>&1; mut=$?
 CFILES=$(git diff --name-only | grep '\.c$')
 git checkout -q -- .
